@@ -130,7 +130,7 @@ impl Property for C05 {
         }
     }
     fn rule(&self) -> &'static str {
-        "one case = a small generated project (1-4 build targets with inputs, X.output chains) + an optional priming invocation and edits + one main invocation under a seeded schedule. The main invocation is first run to completion (R0: N scheduling decisions, final bytes of every record), then ENUMERATED: zinoma killed (_exit) at every decision index 1..N; SIGINT at every decision index; each script that ran made to exit non-zero / die by signal / fail to spawn; each record replaced by every strict prefix (torn write; quick tier: 32 evenly spaced lengths incl. 0 and len-1), by single-bit flips (quick: ~100 positions; tree unchanged / an own input rewritten / a declared output altered), by every byte zeroed in turn with a declared output altered (quick: one record per case), by garbage and by another target's record; and, when the history has a priming run, the interruptions again (every 5th index) followed by a REVERT of the edited inputs to what the last successful record saw, plus each failing script combined with an I/O error (EIO) on zinoma's own n-th stat / unlink / open (n = 1..14), with EACCES on the n-th unlink, and with the target's `input:` removed from the project file for the failing run and put back afterwards. After each, a fault-free recovery invocation runs. Oracle: a target R0 had to run whose on-disk record is not byte-identical to R0's final record is started again, never skipped; recovery never panics/aborts/errs; a target whose declared input changed is never skipped whatever the record bytes; after a revert, a target whose script had started and not completed in the interrupted run is started again. evaluations = simulated invocations; distinct_nontrivial = distinct (interrupted-run order hash, fault item) pairs in which the fault hit after the first script start"
+        "one case = a small generated project (1-4 build targets with inputs, X.output chains) + an optional priming invocation and edits + one main invocation under a seeded schedule. The main invocation is first run to completion (R0: N scheduling decisions, final bytes of every record), then ENUMERATED: zinoma killed (_exit) at every decision index 1..N; SIGINT at every decision index; each script that ran made to exit non-zero / die by signal / fail to spawn; each record replaced by every strict prefix (torn write; quick tier: 32 evenly spaced lengths incl. 0 and len-1), by single-bit flips (quick: ~100 positions; tree unchanged / an own input rewritten / a declared output altered), by every byte zeroed in turn with a declared output altered (quick: one record per case), by garbage and by another target's record; and, when the history has a priming run, the interruptions again (every 5th index) followed by a REVERT of the edited inputs to what the last successful record saw, plus each failing script combined with an I/O error (EIO) on zinoma's own n-th stat / unlink / open (n = 1..14), with EACCES on the n-th unlink, and with the target's `input:` removed from the project file for the failing run and put back afterwards. After each, a fault-free recovery invocation runs. Oracle: a target R0 had to run whose on-disk record is not byte-identical to R0's final record is started again, never skipped; recovery never panics/aborts/errs; a target whose declared input changed is never skipped whatever the record bytes; after a revert, a target whose script had started and not completed in the interrupted run is started again. evaluations = simulated invocations; Also enumerated: every write(2) (quick tier: ~24 evenly spaced ones) and open made while records are stored, failing with ENOSPC / EIO / EACCES, interrupted, or accepting half its buffer (after a short or interrupted write the record must be there in full; after an error the target must run again once its inputs are reverted); a directory, empty or populated, lying where the record should be. distinct_nontrivial = distinct (interrupted-run order hash, fault item) pairs in which the fault hit after the first script start"
     }
     fn assumptions(&self) -> Vec<&'static str> {
         vec![
